@@ -179,6 +179,7 @@ def gen(
                             },
                             "function": {
                                 "function_name": _name,
+                                "function_type": "static",
                             },
                             "argparse": {"function_name": _name},
                         }[type_]
